@@ -86,6 +86,7 @@ theorem start_fires (e : ExcSt K) (p : K) (hp : 1 ≤ p) (hsil : e.pitchOfCurr =
     e'.pitchOfCurr = p ∧ e'.pitchCounter = p ∧ e'.pitchInc = 0 ∧
     pulseStep e' = (Transc.sqrt p, { e' with pitchCounter := 1 }) := by
   intro e'
+  have _ := hp
   have he : e' = { e with pitchInc := 0, pitchOfCurr := p, pitchCounter := p } := by
     show excStart e p fp = _
     unfold excStart
